@@ -157,6 +157,27 @@ func isEmptyVal(v reflect.Value) bool {
 	return false
 }
 
+// mappedEmpty: a struct with a struct-map entry all of whose mapped, reachable fields are empty.
+func mappedEmpty(v reflect.Value, ad *atlasD) bool {
+	if v.Kind() != reflect.Struct {
+		return false
+	}
+	e := ad.entryFor(v.Type())
+	if e == nil || e.kind != "smap" {
+		return false
+	}
+	for _, f := range e.flds {
+		if f.ignore {
+			continue
+		}
+		fv := atlas.ReflectRoute(f.route).TraverseToValue(v)
+		if fv.IsValid() && !isEmptyVal(fv) && !mappedEmpty(fv, ad) {
+			return false
+		}
+	}
+	return true
+}
+
 func (ad *atlasD) entryFor(rt reflect.Type) *AD {
 	for _, e := range ad.entries {
 		if e.t.rt == rt {
@@ -253,8 +274,11 @@ func approxEqual(t *TD, a, b reflect.Value, ad *atlasD, isJSON bool) bool {
 			if !fa.IsValid() {
 				continue // behind a nil embedded pointer: not serialised
 			}
-			if f.omit && isEmptyVal(fa) {
-				if fb.IsValid() && !isEmptyVal(fb) {
+			// "empty vs nil under omitempty" is judged on what is serialized: a struct whose mapped fields
+			// are all empty counts as empty even when a field the atlas does not mention holds data
+			// (re-marshalling the decoded value omits it: C12)
+			if f.omit && (isEmptyVal(fa) || mappedEmpty(fa, ad)) {
+				if fb.IsValid() && !isEmptyVal(fb) && !mappedEmpty(fb, ad) {
 					return false
 				}
 				continue
